@@ -200,4 +200,5 @@ func (q *PriorityQueue) Clear() {
 		next.prev = nil
 		next = next.next
 	}
+	q.next = nil
 }
